@@ -177,6 +177,15 @@ func runTokenFamily(c *Ctx) {
 				return true
 			}
 			op := emitted(call)
+			if op == "" {
+				// an opcode handed to a helper as an argument (relational and
+				// literal patterns: c.relationalPattern(pat.Right, bytecode.LESS))
+				for _, a := range call.Args {
+					if k := opConst(a); k != "" && tokOf[k] != nil {
+						op = k
+					}
+				}
+			}
 			if op == "" || tokOf[op] == nil {
 				return true
 			}
